@@ -20,7 +20,7 @@ for cls, neg in (("AnyBetween", False), ("AnyButBetween", True)):
                 "InvalidRangeException": "not NONE(TOCHAR(start)) and not NONE(TOCHAR(end)) and ORD(TOCHAR(start)) >= ORD(TOCHAR(end))"},
         ensures=f"SAME_TEXT(CLASSARG(self), '[{'^' if neg else ''}' + CESC(TOCHAR(start)) + '-' + CESC(TOCHAR(end)) + ']') "
                 f"and NEGATED(self) == {neg}",
-        returns="none", frame=FRC)
+        returns="class_ctor", value=f"'[{'^' if neg else ''}' + CESC(TOCHAR(start)) + '-' + CESC(TOCHAR(end)) + ']'", neg=neg, frame=FRC)
 
 for cls, neg in (("AnyFrom", False), ("AnyButFrom", True)):
     C[K + cls + ".__init__"] = dict(
@@ -28,4 +28,41 @@ for cls, neg in (("AnyFrom", False), ("AnyButFrom", True)):
         raises={"NotEnoughArgumentsException": "len(chars) == 0",
                 "InvalidArgumentTypeException": "len(chars) > 0 and not ALLCHARS(chars)"},
         ensures=f"SAME_TEXT(CLASSARG(self), '[{'^' if neg else ''}' + JOINCESC(chars) + ']') and NEGATED(self) == {neg}",
-        returns="none", frame=FRC)
+        returns="class_ctor", value=f"'[{'^' if neg else ''}' + JOINCESC(chars) + ']'", neg=neg, frame=FRC)
+
+
+# ---- G9b: the operator methods of the class layer, relative to the assumed core operations __or / __sub -----------------
+# (what the core computes is C07's interval core G8 + the bounded stand-in B3; here: which operands reach it, in which order,
+# after which conversion, and which exception is raised when they cannot)
+M = K + "__Class."
+OPERAND = ["classobj:Class", "classobj:Token", "str0", "str1", "str2", "Token", "Other", "Alternation", "Empty", "other", "none", "int"]
+CONV = "(not NEGATED(self) and ((STRV(pre) and len(pre) == 1) or (PREGEX(pre) and TYPE(pre) == 'Token')))"
+# class invariant (B1): a Token-typed text is one character, or a backslash and one character
+REQ = "IMPLIES(PREGEX(pre) and TYPE(pre) == 'Token', not NONE(TOCHAR(pre)))"
+BAD = f"not {CONV} and (not ISCLS(pre) or NEGATED(self) != NEGATED(pre))"
+
+
+def operand_ok(which, other):
+    # the operand `which` of the recorded core operation is `pre` itself, or AnyFrom(pre) after the documented conversion
+    return (f"(SAME_TEXT(CLASSARG(GHOSTOP(result)[{which}]), '[' + CESC(TOCHAR(pre)) + ']') and not NEGATED(GHOSTOP(result)[{which}]) "
+            f"if {CONV} else GHOSTOP(result)[{which}] is pre) and GHOSTOP(result)[{other}] is self")
+
+
+C[M + "__or"] = dict(params={"pre1": "classobj", "pre2": "classobj"}, raises={"CannotBeUnionedException": "NEGATED(pre1) != NEGATED(pre2)"},
+                     returns="class_op", op="or", assumed=True)
+C[M + "__sub"] = dict(params={"pre1": "classobj", "pre2": "classobj"}, raises={"CannotBeSubtractedException": "NEGATED(pre1) != NEGATED(pre2)"},
+                      may_raise=["EmptyClassException", "GlobalWordCharSubtractionException"], returns="class_op", op="sub", assumed=True)
+for meth, op, exc, mine, theirs in (("__or__", "or", "CannotBeUnionedException", 1, 2), ("__ror__", "or", "CannotBeUnionedException", 2, 1),
+                                    ("__sub__", "sub", "CannotBeSubtractedException", 1, 2), ("__rsub__", "sub", "CannotBeSubtractedException", 2, 1)):
+    C[M + meth] = dict(
+        params={"self": "classobj", "pre": OPERAND}, requires=REQ, raises={exc: BAD},
+        may_raise=["EmptyClassException", "GlobalWordCharSubtractionException"] if op == "sub" else [],
+        ensures=f"ISCLS(result) and NEGATED(result) == NEGATED(self) and GHOSTOP(result)[0] == '{op}' and " + operand_ok(theirs, mine),
+        returns="class_wrapped", frame=[])
+C[M + "__invert__"] = dict(
+    params={"self": "classobj"}, raises={},
+    ensures="NEGATED(result) == (not NEGATED(self)) and SAME_TEXT(CLASSARG(result), '[' + ('' if NEGATED(self) else '^') + "
+            "VERBOSE(self)[(2 if NEGATED(self) else 1):-1] + ']')",
+    returns="class_wrapped", flips=True, frame=[])
+C[K + "Any.__invert__"] = dict(params={"self": "classobj"}, raises={"CannotBeNegatedException": "True"}, returns="opaque_class",
+                               cover_optional={"normal": True}, frame=[])
